@@ -44,6 +44,7 @@ pub fn eval_pp(t: &mut PTables, w: &[&str]) -> Option<Obs> {
         }
         ["default", id] => { set_at(&mut t.tab, id.parse().ok()?, PollingParameterNumberMessageScanner::default()); Some(ok_obs()) }
         ["copy", a, b] => { let x = (*t.tab.get(a.parse::<usize>().ok()?)?)?; set_at(&mut t.tab, b.parse().ok()?, x); Some(ok_obs()) }
+        ["c12begin", _id, _ch] => Some(ok_obs()),
         ["tick", d] => { set_now_nanos(now_nanos().saturating_add(d.parse().ok()?)); Some(ok_obs()) }
         ["settime", x] => { set_now_nanos(x.parse().ok()?); Some(ok_obs()) }
         ["reset", id] => { t.tab.get_mut(id.parse::<usize>().ok()?)?.as_mut()?.reset(); Some(ok_obs()) }
@@ -107,7 +108,7 @@ fn norm_key(dbg: &str, now: u64, timeout: u64) -> String {
 }
 
 #[derive(Clone, Copy)]
-pub enum Inp { Msg(u8, u8, u8), Reset, Poll(u32), Tick(u64) }
+pub enum Inp { Msg(u8, u8, u8), Reset, Poll(u32), Tick(u64), SameAsTemp }
 
 pub fn alphabet(channels: &[u32], timeout: u64) -> Vec<Inp> {
     let mut a = Vec::new();
@@ -133,14 +134,32 @@ pub fn alphabet(channels: &[u32], timeout: u64) -> Vec<Inp> {
 pub fn explore(out: &mut Out, channels: &[u32], timeout: u64, max_states: usize) {
     let alpha = alphabet(channels, timeout);
     let mut seen: HashMap<String, usize> = HashMap::new();
-    let mut times: Vec<u64> = vec![0, 0];
     let mut queue: VecDeque<usize> = VecDeque::new();
+    let mut times: Vec<u64> = vec![0, 0, 0];
     out.req("pp settime 0");
-    out.req(&format!("pp new 1 {}", timeout));
+    out.req(&format!("pp new 2 {}", timeout));
     let key = |out: &Out, id: usize, now: u64| norm_key(&format!("{:?}", out.st.ptables.tab[id].unwrap()), now, timeout);
-    seen.insert(key(out, 1, 0), 1);
-    queue.push_back(1);
-    let mut next_id = 2usize;
+    seen.insert(key(out, 2, 0), 2);
+    queue.push_back(2);
+    let mut next_id = 3usize;
+    let c0 = channels[0];
+    let st0 = 0xB0 + c0 as u8;
+    // behavioural probes run on a copy after every transition: they expose every stored byte of every phase, so a
+    // divergence between model state and implementation state is seen even when the transition itself agreed
+    let probes: Vec<Vec<Inp>> = vec![
+        vec![Inp::Tick(timeout), Inp::Poll(c0)],
+        vec![Inp::Msg(st0, 38, 2)],
+        vec![Inp::Msg(st0, 96, 2)],
+        vec![Inp::Msg(st0, 6, 2), Inp::Tick(timeout), Inp::Poll(c0)],
+        vec![Inp::Msg(st0, 98, 2), Inp::Msg(st0, 96, 3)],
+        vec![Inp::Msg(st0, 99, 2), Inp::Msg(st0, 96, 3)],
+        // C16: non-contributing messages report nothing and leave the scanner equal (real PartialEq) to what it was
+        vec![Inp::Msg(st0, 7, 5), Inp::SameAsTemp],
+        vec![Inp::Msg(st0, 102, 127), Inp::SameAsTemp],
+        vec![Inp::Msg(0x90 + c0 as u8, 6, 38), Inp::SameAsTemp],
+        vec![Inp::Msg(0xF2, 6, 38), Inp::SameAsTemp],
+        vec![Inp::Msg(0xE0 + c0 as u8, 98, 99), Inp::SameAsTemp],
+    ];
     let (mut transitions, mut reports, mut polls_reporting) = (0u64, 0u64, 0u64);
     while let Some(id) = queue.pop_front() {
         for inp in &alpha {
@@ -151,9 +170,23 @@ pub fn explore(out: &mut Out, channels: &[u32], timeout: u64, max_states: usize)
                 Inp::Reset => { out.req("pp reset 0"); out.req(&format!("pp mustbenew 0 {}", timeout)); }
                 Inp::Poll(c) => { let l = out.req_ret(&format!("pp poll 0 {}", c)); if !l.starts_with('-') { reports += 1; polls_reporting += 1; } }
                 Inp::Tick(d) => { out.req(&format!("pp tick {}", d)); }
+                Inp::SameAsTemp => {}
             }
             transitions += 1;
             let now = now_nanos();
+            for probe in &probes {
+                out.req("pp copy 0 1");
+                for pi in probe {
+                    match pi {
+                        Inp::Msg(s, d1, d2) => { out.req(&format!("pp feed 1 raw {} {} {}", s, d1, d2)); }
+                        Inp::Poll(c) => { out.req(&format!("pp poll 1 {}", c)); }
+                        Inp::Tick(d) => { out.req(&format!("pp tick {}", d)); }
+                        Inp::Reset => { out.req("pp reset 1"); }
+                        Inp::SameAsTemp => { out.req("pp same 1 0"); }
+                    }
+                }
+                out.req(&format!("pp settime {}", now));
+            }
             let k = key(out, 0, now);
             if !seen.contains_key(&k) && seen.len() < max_states {
                 out.req(&format!("pp copy 0 {}", next_id));
@@ -238,5 +271,436 @@ pub fn random_histories(out: &mut Out, seed: u64, histories: usize, len: usize) 
     }
     out.stat("evaluations", n);
     out.stat("nontrivial", reports);
+    out.stat("histories", histories as u64);
+}
+
+// ------------------------------------------------------------------------------------------ C12: sentences
+
+#[derive(Clone, Debug)]
+pub enum Unit { MsbAlone(u8), MsbLsb(u8, u8), Further(u8), LsbMsb(u8, u8), IncDec(bool, u8) }
+
+impl Unit {
+    fn is14(&self) -> bool { matches!(self, Unit::MsbLsb(..) | Unit::Further(..) | Unit::LsbMsb(..)) }
+    fn token(&self) -> String {
+        match self {
+            Unit::MsbAlone(v) => format!("a:{}", v),
+            Unit::MsbLsb(m, l) => format!("p:{}:{}", m, l),
+            Unit::Further(l) => format!("f:{}", l),
+            Unit::LsbMsb(l, m) => format!("q:{}:{}", l, m),
+            Unit::IncDec(true, v) => format!("i:{}", v),
+            Unit::IncDec(false, v) => format!("d:{}", v),
+        }
+    }
+    fn msgs(&self) -> Vec<(u8, u8)> {
+        match self {
+            Unit::MsbAlone(v) => vec![(6, *v)],
+            Unit::MsbLsb(m, l) => vec![(6, *m), (38, *l)],
+            Unit::Further(l) => vec![(38, *l)],
+            Unit::LsbMsb(l, m) => vec![(38, *l), (6, *m)],
+            Unit::IncDec(i, v) => vec![(if *i { 96 } else { 97 }, *v)],
+        }
+    }
+}
+
+#[derive(Clone, Debug)]
+pub struct Block { pub reg: bool, pub msb_first: bool, pub number: u16, pub units: Vec<Unit> }
+
+fn unit_kinds_after(first: bool, after14: bool) -> Vec<u8> {
+    // 0 msbAlone 1 msbLsb 2 further 3 lsbMsb 4 inc 5 dec
+    let mut k = vec![0u8, 1, 4, 5];
+    if after14 { k.push(2); }
+    if first { k.push(3); }
+    k
+}
+
+fn gen_unit(kind: u8, rng: &mut Rng) -> Unit {
+    let v = |rng: &mut Rng| -> u8 { if rng.below(3) == 0 { [0u8, 1, 127, 64][rng.below(4) as usize] } else { rng.below(128) as u8 } };
+    match kind {
+        0 => Unit::MsbAlone(v(rng)),
+        1 => Unit::MsbLsb(v(rng), v(rng)),
+        2 => Unit::Further(v(rng)),
+        3 => Unit::LsbMsb(v(rng), v(rng)),
+        4 => Unit::IncDec(true, v(rng)),
+        _ => Unit::IncDec(false, v(rng)),
+    }
+}
+
+/// all sequences of unit kinds up to the given length that satisfy the documented side conditions
+fn kind_sequences(max_len: usize) -> Vec<Vec<u8>> {
+    let mut all: Vec<Vec<u8>> = vec![vec![]];
+    let mut frontier: Vec<(Vec<u8>, bool, bool)> = vec![(vec![], true, false)];
+    for _ in 0..max_len {
+        let mut next = Vec::new();
+        for (seq, first, after14) in &frontier {
+            for k in unit_kinds_after(*first, *after14) {
+                let mut s = seq.clone();
+                s.push(k);
+                let is14 = k == 1 || k == 2 || k == 3;
+                all.push(s.clone());
+                next.push((s, false, is14));
+            }
+        }
+        frontier = next;
+    }
+    all
+}
+
+/// Runs one scheduled sentence on scanner `id`, channel `ch`: messages in order with random gaps (ticks, polls — early
+/// inside two-message units when the timeout allows, arbitrary elsewhere —, non-contributing messages on the
+/// channel, any traffic on another channel), then one late poll; emits every call as a request line and finally
+/// `pp c12end` with the reports the real scanner produced.
+fn run_sentence(out: &mut Out, rng: &mut Rng, id: usize, ch: u8, timeout: u64, blocks: &[Block], gap_style: u64) -> u64 {
+    out.req(&format!("pp c12begin {} {}", id, ch));
+    let mut reports = Obs::new();
+    let mut nrep = 0u64;
+    let st = 0xB0 + ch;
+    let other_ch = (ch + 1 + rng.below(15) as u8) % 16;
+    let mut collect = |line: &str, reports: &mut Obs, nrep: &mut u64| {
+        let cells: Vec<&str> = line.split_whitespace().collect();
+        for chunk in cells.chunks(6) {
+            if chunk.len() == 6 && chunk[0] != "-" {
+                for c in chunk { reports.0.push(c.parse::<i64>().unwrap_or(-1)); }
+                *nrep += 1;
+            }
+        }
+    };
+    let mut last_feed_time: u64;
+    let mut gap = |out: &mut Out, rng: &mut Rng, inner: bool, t0: u64, reports: &mut Obs, nrep: &mut u64| {
+        let n = match gap_style { 0 => 0, 1 => 1, _ => rng.below(4) };
+        for _ in 0..n {
+            match rng.below(6) {
+                0 | 1 => {
+                    // a poll: inside a unit only while it is still early
+                    let now = now_nanos();
+                    let early = now.saturating_sub(t0) < timeout;
+                    if !inner || early {
+                        let l = out.req_ret(&format!("pp poll {} {}", id, ch));
+                        collect(&l, reports, nrep);
+                    }
+                }
+                2 => {
+                    // time passes; inside a unit stay strictly below the deadline
+                    let now = now_nanos();
+                    let d = if inner {
+                        let left = timeout.saturating_sub(now.saturating_sub(t0));
+                        if left > 1 { rng.below(left.min(5)) } else { 0 }
+                    } else { [0u64, 1, timeout.saturating_sub(1), timeout, timeout.saturating_add(1).min(1 << 40), 7][rng.below(6) as usize] };
+                    out.req(&format!("pp tick {}", d));
+                }
+                3 => { let l = out.req_ret(&format!("pp feed {} raw {} {} {}", id, st, [7u8, 0, 39, 95, 102, 127][rng.below(6) as usize], rng.below(128))); collect(&l, reports, nrep); }
+                4 => { out.req(&format!("pp feed {} raw {} {} {}", id, 0xB0 + other_ch, [6u8, 38, 96, 98, 99, 101][rng.below(6) as usize], rng.below(128))); }
+                _ => { let l = out.req_ret(&format!("pp feed {} raw {} {} {}", id, 0x90 + ch, rng.below(128), rng.below(128))); collect(&l, reports, nrep); }
+            }
+        }
+    };
+    last_feed_time = now_nanos();
+    for b in blocks {
+        let x = (if b.reg { 101u8 } else { 99 }, (b.number / 128) as u8);
+        let y = (if b.reg { 100u8 } else { 98 }, (b.number % 128) as u8);
+        let sel = if b.msb_first { [x, y] } else { [y, x] };
+        for (cnn, v) in sel {
+            gap(out, rng, false, 0, &mut reports, &mut nrep);
+            let l = out.req_ret(&format!("pp feed {} raw {} {} {}", id, st, cnn, v));
+            collect(&l, &mut reports, &mut nrep);
+            last_feed_time = now_nanos();
+        }
+        for u in &b.units {
+            let ms = u.msgs();
+            for (j, (cnn, v)) in ms.iter().enumerate() {
+                gap(out, rng, j == 1, last_feed_time, &mut reports, &mut nrep);
+                let l = out.req_ret(&format!("pp feed {} raw {} {} {}", id, st, cnn, v));
+                collect(&l, &mut reports, &mut nrep);
+                last_feed_time = now_nanos();
+            }
+        }
+    }
+    // final poll at least `timeout` after the last message
+    let now = now_nanos();
+    let need = timeout.saturating_sub(now.saturating_sub(last_feed_time));
+    out.req(&format!("pp tick {}", need));
+    let l = out.req_ret(&format!("pp poll {} {}", id, ch));
+    collect(&l, &mut reports, &mut nrep);
+    let mut toks = String::new();
+    for b in blocks {
+        toks.push_str(&format!(" B {} {} {}", b.reg as u8, b.msb_first as u8, b.number));
+        for u in &b.units { toks.push(' '); toks.push_str(&u.token()); }
+    }
+    let cells = if reports.0.is_empty() { "0".to_string() } else { reports.show() };
+    // the empty report list is written as the single cell 0 on both sides
+    out.raw(&format!("pp c12end {} {}{} | {}", id, ch, toks, cells));
+    nrep
+}
+
+pub fn sentences(out: &mut Out, seed: u64, max_units: usize, reps: usize, random_long: usize) {
+    let mut rng = Rng(seed ^ 0xC12);
+    let seqs = kind_sequences(max_units);
+    let (mut n, mut reports, mut units_total) = (0u64, 0u64, 0u64);
+    for timeout in [0u64, 3, 50] {
+        for seq in &seqs {
+            for rep in 0..reps {
+                let ch = rng.below(16) as u8;
+                out.req(&format!("pp settime {}", rng.below(1000)));
+                out.req(&format!("pp new 1 {}", timeout));
+                // prior traffic (every second repetition): leaves the channel in an arbitrary state
+                if rep % 2 == 1 {
+                    for _ in 0..rng.below(6) {
+                        let (s, d1, d2) = random_msg(&mut rng, 16);
+                        let s = if rng.below(2) == 0 { 0xB0 + ch } else { s };
+                        out.req(&format!("pp feed 1 raw {} {} {}", s, d1, d2));
+                    }
+                }
+                let nblocks = 1 + (rep % 2);
+                let mut blocks = Vec::new();
+                for bi in 0..nblocks {
+                    let units: Vec<Unit> = if bi == 0 { seq.iter().map(|k| gen_unit(*k, &mut rng)).collect() } else {
+                        let s2 = &seqs[rng.below(seqs.len() as u64) as usize];
+                        s2.iter().map(|k| gen_unit(*k, &mut rng)).collect()
+                    };
+                    units_total += units.len() as u64;
+                    blocks.push(Block { reg: rng.below(2) == 0, msb_first: rng.below(2) == 0, number: rng.below(16384) as u16, units });
+                }
+                reports += run_sentence(out, &mut rng, 1, ch, timeout, &blocks, rep as u64);
+                n += 1;
+            }
+        }
+    }
+    // long random sentences
+    for _ in 0..random_long {
+        let timeout = [0u64, 3, 1000][rng.below(3) as usize];
+        let ch = rng.below(16) as u8;
+        out.req(&format!("pp settime {}", rng.below(1 << 30)));
+        out.req(&format!("pp new 1 {}", timeout));
+        let mut blocks = Vec::new();
+        for _ in 0..(1 + rng.below(4)) {
+            let mut units = Vec::new();
+            let (mut first, mut after14) = (true, false);
+            for _ in 0..rng.below(12) {
+                let ks = unit_kinds_after(first, after14);
+                let k = ks[rng.below(ks.len() as u64) as usize];
+                let u = gen_unit(k, &mut rng);
+                after14 = u.is14(); first = false;
+                units.push(u);
+            }
+            units_total += units.len() as u64;
+            blocks.push(Block { reg: rng.below(2) == 0, msb_first: rng.below(2) == 0, number: rng.below(16384) as u16, units });
+        }
+        reports += run_sentence(out, &mut rng, 1, ch, timeout, &blocks, 2);
+        n += 1;
+    }
+    out.stat("evaluations", n);
+    out.stat("nontrivial", n);
+    out.stat("sentences", n);
+    out.stat("units", units_total);
+    out.stat("messages_reported", reports);
+    out.stat("unit_kind_sequences", seqs.len() as u64);
+}
+
+// ------------------------------------------------------------------------------------------ C13: directed oracles
+
+fn cells7(ch: u8, number: u32, reg: bool, v: u8) -> String {
+    format!("{} {} {} {} 0 0", ch, number, v, reg as u8)
+}
+const NONE6: &str = "- - - - - -";
+const NONE12: &str = "- - - - - - - - - - - -";
+
+/// Directed scenarios taken from the property text, run on the real scanner with verdicts as oracle lines
+/// (every call is also a request line, so the model is compared on the same scenario):
+///  A  polls before the timeout return nothing and have no effect; the first poll at/after the timeout reports the
+///     pending MSB once; further polls return nothing
+///  B  an unpaired data entry LSB is never reported: the first poll after the timeout drops it, a following MSB is
+///     then a lone MSB
+///  C  the passage of time alone never changes what feed returns
+pub fn directed(out: &mut Out, seed: u64, count: usize) {
+    let mut rng = Rng(seed ^ 0xC13);
+    let mut n = 0u64;
+    for k in 0..count {
+        let timeout = [1u64, 2, 3, 1000, 1 << 40, u64::MAX][k % 6];
+        let ch = rng.below(16) as u8;
+        let st = 0xB0 + ch;
+        let reg = rng.below(2) == 0;
+        let (hi, lo, v, l) = (rng.below(128) as u8, rng.below(128) as u8, rng.below(128) as u8, rng.below(128) as u8);
+        let number = hi as u32 * 128 + lo as u32;
+        let (xm, xl) = if reg { (101u8, 100u8) } else { (99, 98) };
+        out.req(&format!("pp settime {}", rng.below(1 << 20)));
+        out.req(&format!("pp new 1 {}", timeout));
+        let mut prior = String::new();
+        for _ in 0..rng.below(5) {
+            let (s, d1, d2) = random_msg(&mut rng, 16);
+            out.req(&format!("pp feed 1 raw {} {} {}", s, d1, d2));
+            prior.push_str(&format!("{}.{}.{},", s, d1, d2));
+        }
+        out.req(&format!("pp feed 1 raw {} {} {}", st, xm, hi));
+        out.req(&format!("pp feed 1 raw {} {} {}", st, xl, lo));
+        let desc = format!("timeout={} ch={} reg={} number={} v={} l={} prior={}", timeout, ch, reg as u8, number, v, l, if prior.is_empty() { "-" } else { &prior });
+        let late_tick = |rng: &mut Rng, elapsed: u64| -> u64 { (timeout - elapsed).saturating_add(if timeout < (1 << 41) { rng.below(3) } else { 0 }) };
+        match k % 3 {
+            0 => {
+                out.req(&format!("pp feed 1 raw {} 6 {}", st, v));
+                let mut elapsed = 0u64;
+                let mut ok = true;
+                for _ in 0..3 {
+                    let room = timeout - elapsed - 1;
+                    let d = if room == 0 { 0 } else { rng.below(room.min(1 << 30) + 1).min(room) };
+                    out.req(&format!("pp tick {}", d)); elapsed += d;
+                    ok &= out.req_ret(&format!("pp poll 1 {}", ch)) == NONE6;
+                }
+                out.oracle("c13-early-poll-returns-nothing", &desc, ok);
+                let d = late_tick(&mut rng, elapsed);
+                out.req(&format!("pp tick {}", d));
+                let r = out.req_ret(&format!("pp poll 1 {}", ch));
+                out.oracle("c13-late-poll-reports-pending-msb", &desc, r == cells7(ch, number, reg, v));
+                let mut once = true;
+                for _ in 0..2 {
+                    out.req(&format!("pp tick {}", rng.below(5)));
+                    once &= out.req_ret(&format!("pp poll 1 {}", ch)) == NONE6;
+                }
+                out.oracle("c13-reported-once", &desc, once);
+            }
+            1 => {
+                let r0 = out.req_ret(&format!("pp feed 1 raw {} 38 {}", st, l));
+                let d = late_tick(&mut rng, 0);
+                out.req(&format!("pp tick {}", d));
+                let r1 = out.req_ret(&format!("pp poll 1 {}", ch));
+                let r2 = out.req_ret(&format!("pp feed 1 raw {} 6 {}", st, v));
+                out.oracle("c13-unpaired-lsb-dropped-by-late-poll", &desc, r0 == NONE12 && r1 == NONE6 && r2 == NONE12);
+                let d = late_tick(&mut rng, 0);
+                out.req(&format!("pp tick {}", d));
+                let r3 = out.req_ret(&format!("pp poll 1 {}", ch));
+                out.oracle("c13-msb-after-dropped-lsb-is-lone", &desc, r3 == cells7(ch, number, reg, v));
+            }
+            _ => {
+                // same feeds, different passage of time (no polls): identical results
+                out.req("pp copy 1 2");
+                let mut same = true;
+                for _ in 0..8 {
+                    let (s, d1, d2) = random_msg(&mut rng, 2);
+                    let s = if s >= 0xB0 && s < 0xC0 { st } else { s };
+                    let a = out.req_ret(&format!("pp feed 1 raw {} {} {}", s, d1, d2));
+                    out.req(&format!("pp tick {}", [0u64, 1, timeout.saturating_sub(1), timeout, 12345][rng.below(5) as usize]));
+                    let b = out.req_ret(&format!("pp feed 2 raw {} {} {}", s, d1, d2));
+                    same &= a == b;
+                }
+                out.oracle("c13-feed-independent-of-time", &desc, same);
+            }
+        }
+        n += 1;
+    }
+    out.stat("evaluations", n);
+    out.stat("nontrivial", n);
+    out.stat("directed_scenarios", n);
+}
+
+// ------------------------------------------------------------------------------------------ C12: encode -> feed -> poll
+
+/// end-to-end on the real code: encode a message with the real encoder in either byte order, feed it to the real
+/// polling scanner (fresh, or after random prior traffic), poll after the timeout: the reports must be exactly the
+/// original message, preceded at most by the flush of a value that was pending before
+pub fn roundtrips(out: &mut Out, seed: u64, count: usize) {
+    let mut rng = Rng(seed ^ 0x7712);
+    let mut n = 0u64;
+    for k in 0..count {
+        let timeout = [0u64, 3, 1000][k % 3];
+        out.req(&format!("pp settime {}", rng.below(1 << 20)));
+        out.req(&format!("pp new 1 {}", timeout));
+        let c = rng.below(16) as u32;
+        let mut prior = String::new();
+        if k % 2 == 1 {
+            for _ in 0..rng.below(8) {
+                let (s, d1, d2) = random_msg(&mut rng, 16);
+                let s = if rng.below(2) == 0 && (0xB0..0xC0).contains(&s) { 0xB0 + c as u8 } else { s };
+                out.req(&format!("pp feed 1 raw {} {} {}", s, d1, d2));
+                prior.push_str(&format!("{}.{}.{},", s, d1, d2));
+            }
+        }
+        // what is still pending on the channel is flushed first: find out with a copy polled late
+        out.req("pp copy 1 2");
+        out.req(&format!("pp tick {}", timeout));
+        let pending = out.req_ret(&format!("pp poll 2 {}", c));
+        let i = rng.below(8) as u32;
+        let vmax = if i == 1 || i == 5 { 16384 } else { 128 };
+        let v = if k % 5 == 0 { [0u64, 1, 127, vmax - 1, vmax / 2][rng.below(5) as usize] } else { rng.below(vmax) } as u32;
+        let num = if k % 7 == 0 { [0u32, 127, 128, 16383][rng.below(4) as usize] } else { rng.below(16384) as u32 };
+        let m = pn_ctor(i, c, num, v);
+        let lsb_first = rng.below(2) == 0;
+        let order = if lsb_first { DataEntryByteOrder::LsbFirst } else { DataEntryByteOrder::MsbFirst };
+        let ms: [Option<RawShortMessage>; 4] = m.to_short_messages(order);
+        let mut got: Vec<String> = Vec::new();
+        let mut push = |line: &str, got: &mut Vec<String>| {
+            let cells: Vec<&str> = line.split_whitespace().collect();
+            for chunk in cells.chunks(6) { if chunk.len() == 6 && chunk[0] != "-" { got.push(chunk.join(" ")); } }
+        };
+        for x in ms.iter().flatten() {
+            let b = x.to_bytes();
+            if timeout > 1 && rng.below(3) == 0 { out.req(&format!("pp tick {}", rng.below(timeout.min(2)))); }
+            let l = out.req_ret(&format!("pp feed 1 raw {} {} {}", b.0, b.1.get(), b.2.get()));
+            push(&l, &mut got);
+        }
+        out.req(&format!("pp tick {}", timeout));
+        let l = out.req_ret(&format!("pp poll 1 {}", c));
+        push(&l, &mut got);
+        let mut want: Vec<String> = Vec::new();
+        if !pending.starts_with('-') { want.push(pending.clone()); }
+        let mut o = Obs::new(); pn_obs(&m, &mut o);
+        want.push(o.show());
+        out.oracle("pp-encode-feed-poll-roundtrip", &format!("ctor={} ch={} number={} value={} order={} timeout={} prior={}", i, c, num, v,
+            if lsb_first { "lsb" } else { "msb" }, timeout, if prior.is_empty() { "-" } else { &prior }), got == want);
+        n += 1;
+    }
+    out.stat("evaluations", n);
+    out.stat("nontrivial", n);
+    out.stat("roundtrips", n);
+}
+
+// ------------------------------------------------------------------------------------------ C15: isolation
+
+/// one 16-channel real scanner and 16 real scanners of their own side by side: every input goes to the main scanner
+/// and to the own scanner of its channel (resets and time to all); results must coincide
+pub fn isolation(out: &mut Out, seed: u64, histories: usize, len: usize, pair: Option<(u32, u32)>) {
+    let mut rng = Rng(seed ^ 0xC15);
+    let mut n = 0u64;
+    for h in 0..histories {
+        let timeout = [0u64, 3, 1000][h % 3];
+        out.req(&format!("pp settime {}", rng.below(1000)));
+        out.req(&format!("pp new 1 {}", timeout));
+        for c in 0..16 { out.req(&format!("pp new {} {}", 10 + c, timeout)); }
+        let mut ok = true;
+        let mut hist = String::new();
+        for _ in 0..len {
+            let r = rng.below(100);
+            let pick_ch = |rng: &mut Rng| -> u32 { match pair { Some((a, b)) => if rng.below(2) == 0 { a } else { b }, None => rng.below(16) as u32 } };
+            if r < 3 {
+                out.req("pp reset 1");
+                for c in 0..16 { out.req(&format!("pp reset {}", 10 + c)); }
+                hist.push_str("R,");
+            } else if r < 18 {
+                let d = [0u64, 1, timeout.saturating_sub(1), timeout, 7][rng.below(5) as usize];
+                out.req(&format!("pp tick {}", d));
+                hist.push_str(&format!("T{},", d));
+            } else if r < 38 {
+                let c = pick_ch(&mut rng);
+                let a = out.req_ret(&format!("pp poll 1 {}", c));
+                let b = out.req_ret(&format!("pp poll {} {}", 10 + c, c));
+                hist.push_str(&format!("P{},", c));
+                ok &= a == b && (a.starts_with('-') || a.split_whitespace().next() == Some(&c.to_string()));
+            } else {
+                let (s0, d1, d2) = random_msg(&mut rng, 16);
+                let s = if s0 < 0xF0 { (s0 & 0xF0) + pick_ch(&mut rng) as u8 } else { s0 };
+                let a = out.req_ret(&format!("pp feed 1 raw {} {} {}", s, d1, d2));
+                hist.push_str(&format!("{}.{}.{},", s, d1, d2));
+                if s < 0xF0 {
+                    let c = (s & 0x0F) as u32;
+                    let b = out.req_ret(&format!("pp feed {} raw {} {} {}", 10 + c, s, d1, d2));
+                    ok &= a == b;
+                    for chunk in a.split_whitespace().collect::<Vec<_>>().chunks(6) { if chunk[0] != "-" { ok &= chunk[0] == c.to_string(); } }
+                } else {
+                    ok &= a == NONE12;
+                }
+            }
+            n += 1;
+        }
+        out.oracle("c15-polling-channel-isolation", &format!("timeout={} history={}", timeout, if hist.len() > 600 { &hist[..600] } else { &hist }), ok);
+    }
+    out.stat("evaluations", n);
+    out.stat("nontrivial", n);
     out.stat("histories", histories as u64);
 }
